@@ -103,7 +103,10 @@ def known_class(suite, args, out, what):
 def relation(suite, args, mo, io):
     if mo == io or mo.strip() == "-9":
         return True
-    if mo.strip() == "-1" and io.startswith("PANIC"):
+    if mo.strip() == "-1" and (io.startswith("PANIC") or suite == "line_edge"):
+        # -1 = a debug assertion of the fixed-point conversion fails: a panic in checked builds, an unspecified value in
+        # release builds (the raw LineEdge hook is never reached with such coordinates through the public API: the edge
+        # builder clips first)
         return True
     return False
 
